@@ -849,7 +849,7 @@ class TimedCompartment(Compartment):
         self.t = tvec
         self.dt = dt
         assert np.all(self.parameter.vals == self.parameter.vals[0]), "Duration parameter value cannot vary over time"
-        duration = self.parameter.vals[0] * self.parameter.timescale * self.parameter.scale_factor
+        duration = self.parameter.vals[0] * self.parameter.timescale  # `vals` already includes the calibration factors (`scale_factor`)
         self._vals = np.empty((_timed_rows(duration, dt), tvec.size), order="F")  # Fortran/column-major order should be faster for summing over lags to get `vals`
         self._vals.fill(np.nan)
 
@@ -1510,7 +1510,7 @@ class TimedLink(Link):
             # Note that the keyring size calculation is duplicated from TimedCompartment, this could be separated into a function if it is needed any more often than this
             parameter = self.pop.par_lookup[self.source.duration_group]
             assert np.all(parameter.vals == parameter.vals[0]), "Duration parameter value cannot vary over time"
-            duration = parameter.vals[0] * parameter.timescale * parameter.scale_factor
+            duration = parameter.vals[0] * parameter.timescale  # `vals` already includes the calibration factors (`scale_factor`)
             self._vals = np.empty((_timed_rows(duration, dt), tvec.size), order="F")  # Fortran/column-major order should be faster for summing over lags to get `vals`
         self._vals.fill(np.nan)
 
